@@ -3,9 +3,11 @@
 (*                                                                            *)
 (* A frame is one virtual machine instance (the top-level program or a        *)
 (* CHECKPREDICATE child):                                                     *)
-(*   [prog, pc, npc, ds, as, gas, def, err, depth, expres, hidx, phi0]        *)
+(*   [prog, pc, npc, ds, as, gas, def, pend, unpaid, err, depth, expres,      *)
+(*    hidx, phi0]                                                             *)
 (* ds/as: data / alt stack, top = last element.  gas: remaining run limit.    *)
-(* def: cost deferred to the end of the running instruction.                  *)
+(* def: cost deferred to the end of the running instruction; pend: number of  *)
+(* items pushed with deferred cost by the running instruction.                *)
 (*                                                                            *)
 (* Discipline:                                                                *)
 (*  - an item on a stack costs 8 + its length ("standard memory cost"),       *)
@@ -15,7 +17,12 @@
 (*  - most instructions defer the memory cost of their own pops/pushes and    *)
 (*    settle the net amount once, at the end of the instruction;              *)
 (*  - some instructions charge a transient amount (the size of the result)    *)
-(*    that is given back at the end.                                          *)
+(*    that is given back at the end;                                          *)
+(*  - an item is on a stack only if its memory cost has been charged: when    *)
+(*    the settlement at the end of an instruction fails, the items the        *)
+(*    instruction pushed "on credit" are not there (unpaid records their      *)
+(*    cost).  Hence Phi never increases, a failed CHECKPREDICATE child cannot *)
+(*    hand back more than it received, and every execution is finite.         *)
 (* Potential: Phi(f) = gas + StackCost(ds) + StackCost(as).                   *)
 EXTENDS Integers, Sequences, VMNat
 
@@ -86,7 +93,7 @@ PopD(f) == IF ~Ok(f) THEN [f |-> f, v |-> NoVal]
 PopI(f) == IF ~Ok(f) THEN [f |-> f, v |-> NoVal]
            ELSE IF f.ds = <<>> THEN [f |-> Fail(f, "underflow"), v |-> NoVal]
            ELSE LET x == f.ds[Len(f.ds)] IN [f |-> [f EXCEPT !.ds = Front(@), !.gas = @ + ItemCost(x)], v |-> x]
-PushD(f, x) == IF ~Ok(f) THEN f ELSE [f EXCEPT !.ds = Append(@, x), !.def = @ + ItemCost(x)]
+PushD(f, x) == IF ~Ok(f) THEN f ELSE [f EXCEPT !.ds = Append(@, x), !.def = @ + ItemCost(x), !.pend = @ + 1]
 PushI(f, x) == IF ~Ok(f) THEN f
                ELSE LET g == Charge(f, ItemCost(x)) IN IF Ok(g) THEN [g EXCEPT !.ds = Append(@, x)] ELSE g
 PushAltI(f, x) == IF ~Ok(f) THEN f
@@ -94,5 +101,9 @@ PushAltI(f, x) == IF ~Ok(f) THEN f
 
 (* end of an instruction: settle the deferred amount, move to the next instruction *)
 Settle(f) == IF ~Ok(f) THEN f
-             ELSE LET g == Charge(f, f.def) IN IF Ok(g) THEN [g EXCEPT !.def = 0, !.pc = g.npc] ELSE g
+             ELSE LET g == Charge(f, f.def) IN
+                  IF Ok(g) THEN [g EXCEPT !.def = 0, !.pend = 0, !.pc = g.npc]
+                  ELSE LET keep == Len(g.ds) - g.pend IN
+                       [g EXCEPT !.ds = SubSeq(g.ds, 1, keep),
+                                 !.unpaid = StackCost(SubSeq(g.ds, keep + 1, Len(g.ds)))]
 =============================================================================
